@@ -270,6 +270,64 @@ def gen_exhaustive(maxlen, mode="PS", symbols="abuhmpi"):
                 yield dict(base, only_snvs=True)
 
 
+# ---- several chromosomes on ONE coordinate grid (blocks of different chromosomes at overlapping coordinates)
+GRID_CALL = {"a": "0|1:10", "b": "1|0:20", "c": "0|1:30", "u": "0/1:.", "h": "1/1:.", "m": "./.:."}
+GRID_CHROMS = ["chr1", "chr2", "chr3"]
+
+
+def _grid_case(layouts, offsets, only_snvs=False, chromosomes=None, indel_slots=(), tag="grid"):
+    """layouts: one string per chromosome over GRID_CALL symbols and '-' (no record in that slot); slot k of
+    chromosome j lies at position 100*(k+1) + offsets[j]"""
+    hdr = ["##fileformat=VCFv4.2"] + [f"##contig=<ID={c},length=5000>" for c in GRID_CHROMS[:len(layouts)]]
+    hdr += ['##FORMAT=<ID=GT,Number=1,Type=String,Description="Genotype">',
+            '##FORMAT=<ID=PS,Number=1,Type=Integer,Description="Phase set">',
+            "#CHROM\tPOS\tID\tREF\tALT\tQUAL\tFILTER\tINFO\tFORMAT\tS1"]
+    lines = []
+    for j, lay in enumerate(layouts):
+        for k, sym in enumerate(lay):
+            if sym == "-":
+                continue
+            ref, alt = ("AT", "A") if (j, k) in indel_slots else ("A", "C")
+            lines.append(f"{GRID_CHROMS[j]}\t{100 * (k + 1) + offsets[j]}\t.\t{ref}\t{alt}\t.\t.\t.\tGT:PS\t{GRID_CALL[sym]}")
+    return {"vcf": "\n".join(hdr + lines) + "\n", "sample": None, "only_snvs": only_snvs, "chromosomes": chromosomes,
+            "indexed": False, "tags": {tag: True, "ploidy": 2, "miss": any("m" in l for l in layouts)}}
+
+
+def gen_grid_exhaustive(L):
+    """two chromosomes on one grid: chr1 = every layout of two phase sets with >= 2 members each over L slots
+    (contiguous, interleaved, nested), chr2 = every layout of one phase set with >= 2 members among unphased
+    calls; chr2 on the same grid and shifted by half a slot"""
+    import itertools
+    first = ["".join(t) for t in itertools.product("ab", repeat=L) if t.count("a") >= 2 and t.count("b") >= 2]
+    second = ["".join(t) for t in itertools.product("cu", repeat=L) if t.count("c") >= 2]
+    for l1 in first:
+        for l2 in second:
+            for off in (0, 50):
+                yield _grid_case([l1, l2], [0, off], tag="grid_exhaustive")
+
+
+def gen_grid_random(rng):
+    """2-3 chromosomes on one grid, random layouts of up to three phase sets / unphased / homozygous / missing /
+    empty slots, per-chromosome shifts, sometimes indels with --only-snvs, sometimes --chromosome"""
+    k = rng.choice([2, 3, 3])
+    L = rng.randint(4, 8)
+    layouts = []
+    for _ in range(k):
+        alpha = rng.choice(["ab", "abu", "abcu", "abcuh-", "cu", "au-", "abm"])
+        layouts.append("".join(rng.choice(alpha) for _ in range(L)))
+    offsets = [rng.choice([0, 0, 50, -30, 20]) for _ in range(k)]
+    indel = set()
+    only = False
+    if rng.random() < 0.25:
+        indel = {(rng.randrange(k), rng.randrange(L)) for _ in range(rng.randint(1, 3))}
+        only = rng.random() < 0.6
+    chroms = None
+    if rng.random() < 0.2:
+        sel = rng.sample(GRID_CHROMS[:k], rng.randint(1, k))
+        chroms = [",".join(sel)]
+    return _grid_case(layouts, offsets, only_snvs=only, chromosomes=chroms, indel_slots=indel, tag="grid_random")
+
+
 # ------------------------------------------------------------------------------------------------ abstraction
 def unpack_chromosomes(chromosomes):
     out = []
